@@ -204,58 +204,56 @@ func matchElement(segs []Segment, name string) bool {
 	if len(name) > 0 && name[0] == '.' && IsWild(segs[0]) && !segs[0].(Wild).MatchHidden {
 		return false
 	}
-segs:
-	for len(segs) > 0 {
-		// Find a chunk. A chunk is an optional Star followed by a run of
-		// fixed-length segments (Literal and Question).
-		var i int
-		for i = 1; i < len(segs); i++ {
-			if IsWild2(segs[i], Star, StarStar) {
+	return matchSegments(segs, name)
+}
+
+// Matches name against segs, trying all the ways a star can match. Stars with
+// restricted character sets mean that taking the shortest match for one star
+// can make a later one fail, so backtracking is needed.
+func matchSegments(segs []Segment, name string) bool {
+	if len(segs) == 0 {
+		return name == ""
+	}
+	// Find a chunk. A chunk is an optional Star followed by a run of
+	// fixed-length segments (Literal and Question).
+	var i int
+	for i = 1; i < len(segs); i++ {
+		if IsWild2(segs[i], Star, StarStar) {
+			break
+		}
+	}
+
+	chunk := segs[:i]
+	startsWithStar := IsWild2(chunk[0], Star, StarStar)
+	var startingStar Wild
+	if startsWithStar {
+		startingStar = chunk[0].(Wild)
+		chunk = chunk[1:]
+	}
+	segs = segs[i:]
+
+	// Match at the current position.
+	ok, rest := matchFixedLength(chunk, name)
+	if ok && matchSegments(segs, rest) {
+		return true
+	}
+
+	if startsWithStar {
+		for i := 0; i < len(name); {
+			r, rsize := utf8.DecodeRuneInString(name[i:])
+			j := i + rsize
+			// Match name[:j] with the starting *, and the rest with chunk.
+			if !startingStar.Match(r) {
 				break
 			}
-		}
-
-		chunk := segs[:i]
-		startsWithStar := IsWild2(chunk[0], Star, StarStar)
-		var startingStar Wild
-		if startsWithStar {
-			startingStar = chunk[0].(Wild)
-			chunk = chunk[1:]
-		}
-		segs = segs[i:]
-
-		// TODO: Implement a quick path when len(segs) == 0 by matching
-		// backwards.
-
-		// Match at the current position. If this is the last chunk, we need to
-		// make sure name is exhausted by the matching.
-		ok, rest := matchFixedLength(chunk, name)
-		if ok && (rest == "" || len(segs) > 0) {
-			name = rest
-			continue
-		}
-
-		if startsWithStar {
-			// TODO: Optimize by stopping at len(name) - LB(# bytes segs can
-			// match) rather than len(names)
-			for i := 0; i < len(name); {
-				r, rsize := utf8.DecodeRuneInString(name[i:])
-				j := i + rsize
-				// Match name[:j] with the starting *, and the rest with chunk.
-				if !startingStar.Match(r) {
-					break
-				}
-				ok, rest := matchFixedLength(chunk, name[j:])
-				if ok && (rest == "" || len(segs) > 0) {
-					name = rest
-					continue segs
-				}
-				i = j
+			ok, rest := matchFixedLength(chunk, name[j:])
+			if ok && matchSegments(segs, rest) {
+				return true
 			}
+			i = j
 		}
-		return false
 	}
-	return name == ""
+	return false
 }
 
 // matchFixedLength returns whether a run of fixed-length segments (Literal and
